@@ -30,6 +30,8 @@ PROFILE = {
 def model_case(draw):
     case = draw(C.with_entry(gen.retry_case(PROFILE), C.WIDE_ENTRIES))
     case["string_answers"] = draw(st.sampled_from([False] * 9 + [True]))
+    if gen.chance(draw, 0.04, "c03-zero-deadline"):
+        case["cfg"]["deadline"] = 0  # a deadline of zero has passed as soon as the first attempt has failed
     if case["cfg"].get("budget") is not None and gen.chance(draw, 0.3, "c03-steal"):
         # the budget is shared: somebody else takes tokens while this run is between its failure and its own consume()
         for c in case["calls"]:
